@@ -180,6 +180,7 @@ fn main() {
         "cpp-export" => cppexport::export_cmd(&args),
         "mapping-histories" => targets::mapping_histories(&args),
         "pool-histories" => targets::pool_histories(&args),
+        "amo-dump" => targets::amo_dump(&args),
         _ => {
             eprintln!("usage: vh cases|run|explore|replay ...");
             std::process::exit(2);
